@@ -131,8 +131,10 @@ def run(prog, rep):
         each = "EACH(%s)" % fx.text(itcall, loops[0])
         # stores through the setters, read with helpers inlined: (<each>.link = <each>._link) and the same for include
         stores = {}
+        hgs = {}
         for h in private_closure(fin):
             hg = build_cfg(h)
+            hgs[h.qualname] = hg
             for n in hg.nodes:
                 if n.kind == "stmt" and isinstance(n.ast, ast.Assign) and isinstance(n.ast.targets[0], ast.Attribute) \
                         and n.ast.targets[0].attr in ("link", "include"):
@@ -142,8 +144,9 @@ def run(prog, rep):
             ok = len(sts) == 1
             if ok:
                 h, n = sts[0]
-                tv, vv = unparse(n.ast.targets[0].value), unparse(n.ast.value)
-                ok = vv == "%s._%s" % (tv, attr)
+                tv = unparse(n.ast.targets[0].value)
+                hx = Expander(h, hgs[h.qualname])
+                ok = hx.text(n.ast.value, n) == "%s._%s" % (hx.text(n.ast.targets[0].value, n), attr)
                 if h is fin:
                     ok = ok and Expander(fin, fg).text(n.ast.targets[0].value, n) == each
                 else:
